@@ -36,7 +36,9 @@ NewRun(ev) ==
       \* why the program must be refused with a diagnostic ("" = it must run)
       refuse == IF ~WellFormed(P, L.labels) THEN "illformed" ELSE IF L.over THEN "over" ELSE ""
   IN [P |-> P, C |-> C, L |-> L, d |-> [Boot(P, C, L.mem) EXCEPT !.phase = "boot"], msg |-> << >>, n |-> ev.n,
-      refuse |-> refuse]
+      refuse |-> refuse,
+      \* source lines a diagnostic may cite (set of [line, text]); empty = not known to the harness
+      offend |-> IF "offend" \in DOMAIN ev THEN {ev.offend[j] : j \in 1 .. Len(ev.offend)} ELSE {}]
 
 \* a message citing a source line is pending after PRINT / INT 0 / INT 3 / unsupported AH
 Pending(kind, e, idx) == <<kind, idx, e.line, IF kind = "int3" THEN "" ELSE e.text>>
@@ -135,6 +137,14 @@ OnInt(r, ev) ==
      /\ Check(bad = {}, "int", [mem |-> bad, expected |-> [a \in bad |-> Rd(d2.m, a)]])
      /\ run' = [r EXCEPT !.d = [d2 EXCEPT !.m = [d.m EXCEPT !.regs = ev.regs, !.flags = ev.flags, !.mem = obs @@ d.m.mem]]]
 
+\* the position a diagnostic cites must be that of the offending token's line (C16)
+OnDiagPos(r, ev) ==
+  /\ Check(r.offend = {} \/ \E o \in r.offend : o.line = ev.line /\ o.text = ev.text, "diagpos",
+           <<"diagnostic cites line", ev.line, ev.text, "the offending token is on", r.offend>>)
+  /\ Check(r.offend = {} \/ \E o \in r.offend : o.line = ev.line /\ (o.col < 0 \/ o.col = ev.col), "diagpos",
+           <<"diagnostic cites column", ev.col, "the offending token is at", r.offend>>)
+  /\ UNCHANGED run
+
 OnDiag(r, ev) ==
   /\ Check(r.refuse # "", "diag", <<"diagnostic for a valid program", ev.stage, ev.msg>>)
   /\ Check(ev.msg # "", "reject-" \o r.refuse, <<"empty diagnostic">>)
@@ -191,6 +201,7 @@ TraceNext ==
        [] ev.ev = "input"   -> OnInput(run, ev)
        [] ev.ev = "int"     -> OnInt(run, ev)
        [] ev.ev = "diag"    -> OnDiag(run, ev)
+       [] ev.ev = "diagpos" -> OnDiagPos(run, ev)
        [] ev.ev = "exit"    -> OnExit(run, ev)
        [] ev.ev = "stdout"  -> OnStdout(run, ev)
        [] OTHER -> UNCHANGED run
